@@ -488,6 +488,10 @@ func (g Gateway) GetByIndex(ctx context.Context, in *hydrapb.GetByIndexRequest) 
 
 	defer handlePanic()
 
+	if in.GetFrom() < 0 || in.GetLimit() < 0 {
+		return nil, status.Error(codes.InvalidArgument, "From and Limit cannot be negative")
+	}
+
 	swampName, err := checkSwampName(g.ZeusInterface, in.GetIslandID(), in.SwampName, true)
 	if err != nil {
 		return nil, err
@@ -635,6 +639,10 @@ func (g Gateway) GetByIndexStream(in *hydrapb.GetByIndexStreamRequest, stream hy
 	// Do NOT use LockSystem for streaming RPCs (same pattern as SubscribeToEvents).
 	defer handlePanic()
 
+	if in.GetFrom() < 0 || in.GetLimit() < 0 {
+		return status.Error(codes.InvalidArgument, "From and Limit cannot be negative")
+	}
+
 	swampName, err := checkSwampName(g.ZeusInterface, in.GetIslandID(), in.SwampName, true)
 	if err != nil {
 		return err
@@ -767,6 +775,10 @@ func (g Gateway) GetByIndexStreamFromMany(in *hydrapb.GetByIndexStreamFromManyRe
 
 		if stream.Context().Err() != nil {
 			return stream.Context().Err()
+		}
+
+		if query.GetFrom() < 0 || query.GetLimit() < 0 {
+			return status.Error(codes.InvalidArgument, "From and Limit cannot be negative")
 		}
 
 		swampName, err := checkSwampName(g.ZeusInterface, query.GetIslandID(), query.SwampName, true)
